@@ -709,7 +709,9 @@ func (e *Engine) findIndicesBidirectionalDFACore(haystack []byte, at int, state 
 	return start, end, true
 }
 
-// findIndicesBidirectionalDFALongest uses forward DFA (leftmost-longest) + reverse DFA.
+// findIndicesBidirectionalDFALongest uses forward DFA + reverse DFA. The forward DFA
+// reports the end of the leftmost-FIRST match, so this is not used in Longest (POSIX)
+// mode: the callers fall back to the Pike VM there.
 // Unlike findIndicesBidirectionalDFA, this preserves greedy/longest match semantics.
 // Used by BoundedBacktracker fallback where greedy semantics are required.
 // Accepts optional state to avoid redundant pool.Get when caller already has one.
@@ -762,7 +764,7 @@ func (e *Engine) findIndicesBoundedBacktracker(haystack []byte) (int, int, bool)
 	if !e.boundedBacktracker.CanHandle(len(haystack)) {
 		// Bidirectional DFA: O(n) vs PikeVM's O(n*states) for large inputs
 		// Use longest variant to preserve greedy semantics for BoundedBacktracker patterns.
-		if e.dfa != nil && e.reverseDFA != nil {
+		if !e.longest && e.dfa != nil && e.reverseDFA != nil {
 			return e.findIndicesBidirectionalDFALongest(haystack, 0)
 		}
 		return e.pikevm.SearchWithSlotTable(haystack, nfa.SearchModeFind)
@@ -802,7 +804,7 @@ func (e *Engine) findIndicesBoundedBacktrackerAt(haystack []byte, at int) (int, 
 	if e.asciiBoundedBacktracker != nil {
 		if simd.IsASCII(remaining) {
 			if !e.asciiBoundedBacktracker.CanHandle(len(remaining)) {
-				if e.dfa != nil && e.reverseDFA != nil {
+				if !e.longest && e.dfa != nil && e.reverseDFA != nil {
 					return e.findIndicesBidirectionalDFALongest(haystack, at)
 				}
 				return e.pikevm.SearchWithSlotTableAt(haystack, at, nfa.SearchModeFind)
@@ -816,7 +818,7 @@ func (e *Engine) findIndicesBoundedBacktrackerAt(haystack []byte, at int) (int, 
 	}
 
 	if !e.boundedBacktracker.CanHandle(len(remaining)) {
-		if e.dfa != nil && e.reverseDFA != nil {
+		if !e.longest && e.dfa != nil && e.reverseDFA != nil {
 			return e.findIndicesBidirectionalDFALongest(haystack, at)
 		}
 		return e.findIndicesNFAAt(haystack, at)
@@ -1311,7 +1313,7 @@ func (e *Engine) findIndicesBoundedBacktrackerAtWithState(haystack []byte, at in
 		if simd.IsASCII(remaining) {
 			if !e.asciiBoundedBacktracker.CanHandle(len(remaining)) {
 				// Bidirectional DFA: O(n) vs PikeVM's O(n*states)
-				if e.dfa != nil && e.reverseDFA != nil {
+				if !e.longest && e.dfa != nil && e.reverseDFA != nil {
 					return e.findIndicesBidirectionalDFALongest(haystack, at, state)
 				}
 				// V12 Windowed BoundedBacktracker for ASCII path
@@ -1335,7 +1337,7 @@ func (e *Engine) findIndicesBoundedBacktrackerAtWithState(haystack []byte, at in
 
 	if !e.boundedBacktracker.CanHandle(len(remaining)) {
 		// Bidirectional DFA: O(n) vs PikeVM's O(n*states) for large inputs
-		if e.dfa != nil && e.reverseDFA != nil {
+		if !e.longest && e.dfa != nil && e.reverseDFA != nil {
 			return e.findIndicesBidirectionalDFALongest(haystack, at, state)
 		}
 		// V12 Windowed BoundedBacktracker fallback
